@@ -69,12 +69,19 @@ pub struct WorkerDeath {
 /// Runs `nshards` worker subprocesses `mc worker <args..> <shard> <nshards>`; merges their results;
 /// returns the list of workers that died or stalled (with the case they had announced).
 pub fn supervise(rep: &Report, args: &[String], nshards: usize, stall: Duration) -> Vec<WorkerDeath> {
+    supervise_full(rep, args, nshards, stall).0
+}
+
+/// Same, also returning every RESULT document (workers may attach extra fields).
+pub fn supervise_full(rep: &Report, args: &[String], nshards: usize, stall: Duration) -> (Vec<WorkerDeath>, Vec<Value>) {
     let exe = std::env::current_exe().expect("current_exe");
     let deaths = Arc::new(Mutex::new(vec![]));
+    let all_results: Arc<Mutex<Vec<Value>>> = Arc::new(Mutex::new(vec![]));
     std::thread::scope(|s| {
         for shard in 0..nshards {
             let exe = exe.clone();
             let deaths = deaths.clone();
+            let all_results = all_results.clone();
             s.spawn(move || {
                 let mut cmd = Command::new(&exe);
                 cmd.arg("worker");
@@ -137,6 +144,7 @@ pub fn supervise(rep: &Report, args: &[String], nshards: usize, stall: Duration)
                 for r in &results {
                     merge_json(rep, r);
                 }
+                all_results.lock().unwrap().extend(results.iter().cloned());
                 let ok = *got_result.lock().unwrap();
                 if !ok || timed_out {
                     deaths.lock().unwrap().push(WorkerDeath { shard, last_case: last_case.lock().unwrap().0.clone(), status, stderr_tail, timed_out });
@@ -145,5 +153,6 @@ pub fn supervise(rep: &Report, args: &[String], nshards: usize, stall: Duration)
         }
     });
     let d = std::mem::take(&mut *deaths.lock().unwrap());
-    d
+    let r = std::mem::take(&mut *all_results.lock().unwrap());
+    (d, r)
 }
